@@ -4,8 +4,17 @@
    Σ l_i b^i; [le_digits b n] = the base-b digits of n, least significant first, without a
    high zero digit ([] for 0); bytes / u32 words / native digits are bases 256 / 2^32 / 2^64. *)
 From BigNum Require Import Base BaseLemmas SpecBytes BytesLemmas BitDigits BitDigitsProofs
-  Iter IterProofs Bytes BytesProofs SignedBytesProofs.
+  Iter IterProofs Bytes BytesProofs SignedBytesProofs Extracted InstIter InstBytes.
 Open Scope Z_scope.
+
+(* The iterator theorems are proved generically in the source-extracted decision points of
+   `U32Digits` and instantiated here at `Extracted.iter` (inst/InstIter.v). *)
+Local Notation IP := Extracted.iter.
+Local Notation iok := iter_params_ok.
+(* ... and the byte import/export theorems in those of to_bytes_le / from_bytes_le / *_signed_bytes_*,
+   instantiated at `Extracted.byteio` (inst/InstBytes.v). *)
+Local Notation BP := Extracted.byteio.
+Local Notation bok := bytes_params_ok.
 
 (** ** the meaning of the specification functions themselves *)
 Theorem C09_le_digits_meaning : forall b n, 1 < b -> 0 <= n ->
@@ -29,30 +38,30 @@ Qed.
 Print Assumptions C09_signed_len_meaning.
 
 (** ** export: bytes, u32 / u64 digit vectors *)
-Theorem C09_to_bytes_le : forall u, canon u -> uto_bytes_le u = Ret (spec_to_bytes_le (val u)).
-Proof. apply uto_bytes_le_spec. Qed.
+Theorem C09_to_bytes_le : forall u, canon u -> uto_bytes_le BP u = Ret (spec_to_bytes_le (val u)).
+Proof. intros; apply uto_bytes_le_spec; auto using bok. Qed.
 Print Assumptions C09_to_bytes_le.
-Theorem C09_to_bytes_be : forall u, canon u -> uto_bytes_be u = Ret (spec_to_bytes_be (val u)).
-Proof. apply uto_bytes_be_spec. Qed.
+Theorem C09_to_bytes_be : forall u, canon u -> uto_bytes_be BP u = Ret (spec_to_bytes_be (val u)).
+Proof. intros; apply uto_bytes_be_spec; auto using bok. Qed.
 Print Assumptions C09_to_bytes_be.
-Theorem C09_to_u32_digits : forall u, canon u -> uto_u32_digits u = Ret (le_digits (2 ^ 32) (val u)).
-Proof. apply uto_u32_digits_spec. Qed.
+Theorem C09_to_u32_digits : forall u, canon u -> uto_u32_digits IP u = Ret (le_digits (2 ^ 32) (val u)).
+Proof. intros u; apply (uto_u32_digits_spec IP u iok). Qed.
 Print Assumptions C09_to_u32_digits.
 Theorem C09_to_u64_digits : forall u, canon u -> uto_u64_digits u = le_digits (2 ^ 64) (val u).
 Proof. apply uto_u64_digits_spec. Qed.
 Print Assumptions C09_to_u64_digits.
 
 Theorem C09_bigint_to_bytes_le : forall x, icanon x ->
-  ito_bytes_le x = Ret (z_sign (ival x), spec_to_bytes_le (Z.abs (ival x))).
-Proof. apply ito_bytes_le_spec. Qed.
+  ito_bytes_le BP x = Ret (z_sign (ival x), spec_to_bytes_le (Z.abs (ival x))).
+Proof. intros; apply ito_bytes_le_spec; auto using bok. Qed.
 Print Assumptions C09_bigint_to_bytes_le.
 Theorem C09_bigint_to_bytes_be : forall x, icanon x ->
-  ito_bytes_be x = Ret (z_sign (ival x), spec_to_bytes_be (Z.abs (ival x))).
-Proof. apply ito_bytes_be_spec. Qed.
+  ito_bytes_be BP x = Ret (z_sign (ival x), spec_to_bytes_be (Z.abs (ival x))).
+Proof. intros; apply ito_bytes_be_spec; auto using bok. Qed.
 Print Assumptions C09_bigint_to_bytes_be.
 Theorem C09_bigint_to_u32_digits : forall x, icanon x ->
-  ito_u32_digits x = Ret (z_sign (ival x), le_digits (2 ^ 32) (Z.abs (ival x))).
-Proof. apply ito_u32_digits_spec. Qed.
+  ito_u32_digits IP x = Ret (z_sign (ival x), le_digits (2 ^ 32) (Z.abs (ival x))).
+Proof. intros x; apply (ito_u32_digits_spec IP x iok). Qed.
 Print Assumptions C09_bigint_to_u32_digits.
 Theorem C09_bigint_to_u64_digits : forall x, icanon x ->
   ito_u64_digits x = (z_sign (ival x), le_digits (2 ^ 64) (Z.abs (ival x))).
@@ -60,11 +69,11 @@ Proof. apply ito_u64_digits_spec. Qed.
 Print Assumptions C09_bigint_to_u64_digits.
 
 (** ** import: any byte / word sequence, with or without redundant padding *)
-Theorem C09_from_bytes_le : forall bs, inb 256 bs -> ufrom_bytes_le bs = Ret (enc (le_value 256 bs)).
-Proof. apply ufrom_bytes_le_spec. Qed.
+Theorem C09_from_bytes_le : forall bs, inb 256 bs -> ufrom_bytes_le BP bs = Ret (enc (le_value 256 bs)).
+Proof. intros; apply ufrom_bytes_le_spec; auto using bok. Qed.
 Print Assumptions C09_from_bytes_le.
-Theorem C09_from_bytes_be : forall bs, inb 256 bs -> ufrom_bytes_be bs = Ret (enc (le_value 256 (rev bs))).
-Proof. apply ufrom_bytes_be_spec. Qed.
+Theorem C09_from_bytes_be : forall bs, inb 256 bs -> ufrom_bytes_be BP bs = Ret (enc (le_value 256 (rev bs))).
+Proof. intros; apply ufrom_bytes_be_spec; auto using bok. Qed.
 Print Assumptions C09_from_bytes_be.
 Theorem C09_new : forall w, inb (2 ^ 32) w -> unew w = enc (le_value (2 ^ 32) w).
 Proof. apply unew_spec. Qed.
@@ -88,42 +97,42 @@ Theorem C09_bigint_assign_from_slice : forall self s w, inb (2 ^ 32) w ->
 Proof. apply iassign_from_slice_spec. Qed.
 Print Assumptions C09_bigint_assign_from_slice.
 Theorem C09_bigint_from_bytes_le : forall s bs, inb 256 bs ->
-  ifrom_bytes_le s bs = Ret (ienc (sign_z s * le_value 256 bs)).
-Proof. apply ifrom_bytes_le_spec. Qed.
+  ifrom_bytes_le BP s bs = Ret (ienc (sign_z s * le_value 256 bs)).
+Proof. intros; apply ifrom_bytes_le_spec; auto using bok. Qed.
 Print Assumptions C09_bigint_from_bytes_le.
 Theorem C09_bigint_from_bytes_be : forall s bs, inb 256 bs ->
-  ifrom_bytes_be s bs = Ret (ienc (sign_z s * le_value 256 (rev bs))).
-Proof. apply ifrom_bytes_be_spec. Qed.
+  ifrom_bytes_be BP s bs = Ret (ienc (sign_z s * le_value 256 (rev bs))).
+Proof. intros; apply ifrom_bytes_be_spec; auto using bok. Qed.
 Print Assumptions C09_bigint_from_bytes_be.
 
 (** ** signed bytes: shortest two's complement out, any sign-extended encoding in *)
 Theorem C09_to_signed_bytes_le : forall x, icanon x ->
-  to_signed_bytes_le x =
+  to_signed_bytes_le BP x =
   Ret (le_digits_n (Z.to_nat (signed_len (ival x))) 256 (ival x mod 2 ^ (8 * signed_len (ival x)))).
-Proof. apply to_signed_bytes_le_spec. Qed.
+Proof. intros; apply to_signed_bytes_le_spec; auto using bok. Qed.
 Print Assumptions C09_to_signed_bytes_le.
 Theorem C09_to_signed_bytes_be : forall x, icanon x ->
-  to_signed_bytes_be x = Ret (rev (spec_to_signed_bytes_le (ival x))).
-Proof. apply to_signed_bytes_be_spec. Qed.
+  to_signed_bytes_be BP x = Ret (rev (spec_to_signed_bytes_le (ival x))).
+Proof. intros; apply to_signed_bytes_be_spec; auto using bok. Qed.
 Print Assumptions C09_to_signed_bytes_be.
 Theorem C09_from_signed_bytes_le : forall bs, inb 256 bs ->
-  from_signed_bytes_le bs = Ret (ienc (spec_from_signed_bytes_le bs)).
-Proof. apply from_signed_bytes_le_spec. Qed.
+  from_signed_bytes_le BP bs = Ret (ienc (spec_from_signed_bytes_le bs)).
+Proof. intros; apply from_signed_bytes_le_spec; auto using bok. Qed.
 Print Assumptions C09_from_signed_bytes_le.
 Theorem C09_from_signed_bytes_be : forall bs, inb 256 bs ->
-  from_signed_bytes_be bs = Ret (ienc (spec_from_signed_bytes_le (rev bs))).
-Proof. apply from_signed_bytes_be_spec. Qed.
+  from_signed_bytes_be BP bs = Ret (ienc (spec_from_signed_bytes_le (rev bs))).
+Proof. intros; apply from_signed_bytes_be_spec; auto using bok. Qed.
 Print Assumptions C09_from_signed_bytes_be.
 Theorem C09_signed_bytes_roundtrip : forall x, icanon x ->
-  (do l <- to_signed_bytes_le x; from_signed_bytes_le l) = Ret x.
-Proof. apply from_to_signed_bytes_le. Qed.
+  (do l <- to_signed_bytes_le BP x; from_signed_bytes_le BP l) = Ret x.
+Proof. intros; apply from_to_signed_bytes_le; auto using bok. Qed.
 Print Assumptions C09_signed_bytes_roundtrip.
 
 (** ** the digit iterators: a double-ended exact-size queue under ANY call list
    (next / next_back / nth k / len / size_hint, ended by last / count) *)
 Theorem C09_iter_u32_any_interleaving : forall d cs, canon d ->
-  it_run cs (it_new d) = dq_run cs (le_digits (2 ^ 32) (val d)).
-Proof. intros; apply iter32_spec; auto. Qed.
+  it_run IP cs (it_new IP d) = dq_run cs (le_digits (2 ^ 32) (val d)).
+Proof. intros; apply (iter32_spec IP); auto using iok. Qed.
 Print Assumptions C09_iter_u32_any_interleaving.
 Theorem C09_iter_u64_any_interleaving : forall d cs, canon d ->
   it64_run cs d = dq_run cs (le_digits (2 ^ 64) (val d)).
@@ -131,33 +140,34 @@ Proof. intros; apply iter64_spec; auto. Qed.
 Print Assumptions C09_iter_u64_any_interleaving.
 
 (** the refinement behind it: an invariant of all reachable states and one lemma per call *)
-Theorem C09_iter_u32_invariant : forall d s, reachable d s -> inv s.
-Proof. apply reachable_inv. Qed.
+Theorem C09_iter_u32_invariant : forall d s, reachable IP d s -> inv s.
+Proof. intros d s; apply (reachable_inv IP d s iok). Qed.
 Print Assumptions C09_iter_u32_invariant.
 Theorem C09_iter_u32_steps : forall s, inv s ->
-  (let '(x, s') := it_next s in x = hd_error (abs s) /\ abs s' = tl (abs s) /\ inv s') /\
-  (let '(x, s') := it_next_back s in x = last_opt (abs s) /\ abs s' = removelast (abs s) /\ inv s') /\
-  (forall k, let '(x, s') := it_nth k s in
+  (let '(x, s') := it_next IP s in x = hd_error (abs s) /\ abs s' = tl (abs s) /\ inv s') /\
+  (let '(x, s') := it_next_back IP s in x = last_opt (abs s) /\ abs s' = removelast (abs s) /\ inv s') /\
+  (forall k, let '(x, s') := it_nth IP k s in
              x = hd_error (skipn k (abs s)) /\ abs s' = tl (skipn k (abs s)) /\ inv s') /\
-  it_len s = Ret (Z.of_nat (length (abs s))) /\
-  it_size_hint s = Ret (Z.of_nat (length (abs s)), Some (Z.of_nat (length (abs s)))) /\
-  it_last s = last_opt (abs s) /\
-  it_count s = Ret (Z.of_nat (length (abs s))).
+  it_len IP s = Ret (Z.of_nat (length (abs s))) /\
+  it_size_hint IP s = Ret (Z.of_nat (length (abs s)), Some (Z.of_nat (length (abs s)))) /\
+  it_last IP s = last_opt (abs s) /\
+  it_count IP s = Ret (Z.of_nat (length (abs s))).
 Proof.
-  intros s Hs. split; [apply it_next_spec; auto|]. split; [apply it_next_back_spec; auto|].
+  intros s Hs. pose proof iok as Hok.
+  split; [apply it_next_spec; auto|]. split; [apply it_next_back_spec; auto|].
   split; [intros k; apply it_nth_spec; auto|].
   split; [apply it_len_spec; auto|]. split; [apply it_size_hint_spec; auto|].
   split; [apply it_last_spec; auto|apply it_count_spec; auto].
 Qed.
 Print Assumptions C09_iter_u32_steps.
 Theorem C09_iter_u32_initial : forall d, canon d ->
-  inv (it_new d) /\ abs (it_new d) = le_digits (2 ^ 32) (val d).
-Proof. intros d Hd. split; [apply inv_new|apply abs_new; auto]. Qed.
+  inv (it_new IP d) /\ abs (it_new IP d) = le_digits (2 ^ 32) (val d).
+Proof. intros d Hd. split; [apply inv_new; exact iok|apply abs_new; auto using iok]. Qed.
 Print Assumptions C09_iter_u32_initial.
 Theorem C09_iter_u32_fused : forall s, inv s -> abs s = [] ->
-  fst (it_next s) = None /\ fst (it_next_back s) = None /\ it_len s = Ret 0 /\
-  abs (snd (it_next s)) = [] /\ abs (snd (it_next_back s)) = [].
-Proof. apply it_fused. Qed.
+  fst (it_next IP s) = None /\ fst (it_next_back IP s) = None /\ it_len IP s = Ret 0 /\
+  abs (snd (it_next IP s)) = [] /\ abs (snd (it_next_back IP s)) = [].
+Proof. intros s; apply (it_fused IP s iok). Qed.
 Print Assumptions C09_iter_u32_fused.
 
 (** ** the bit-regrouping routines shared with the radix conversions (widths dividing 64) *)
@@ -185,11 +195,11 @@ Print Assumptions C09_to_inexact_bitwise_digits_le.
    half-digit, the -2^(8k-1) exception and redundant padding. *)
 Example C09_nonvacuous :
   canonb [5; 4294967296 * 7 + 3; 9] = true /\
-  it_run [CNext; CBack; CLen; CNth 1; CBack; CNext; CNext; CLen; CCount] (it_new [5; 4294967296 * 7 + 3; 9])
+  it_run IP [CNext; CBack; CLen; CNth 1; CBack; CNext; CNext; CLen; CCount] (it_new IP [5; 4294967296 * 7 + 3; 9])
     = [OItem (Some 5); OItem (Some 9); OLen 3; OItem (Some 3); OItem (Some 7); OItem None; OItem None; OLen 0; OLen 0] /\
-  to_signed_bytes_le (mkint Minus [32768]) = Ret [0; 128] /\
-  to_signed_bytes_le (mkint Minus [32769]) = Ret [255; 127; 255] /\
-  from_signed_bytes_le [0; 128; 255; 255] = Ret (mkint Minus [32768]) /\
+  to_signed_bytes_le BP (mkint Minus [32768]) = Ret [0; 128] /\
+  to_signed_bytes_le BP (mkint Minus [32769]) = Ret [255; 127; 255] /\
+  from_signed_bytes_le BP [0; 128; 255; 255] = Ret (mkint Minus [32768]) /\
   unew [0; 1; 0; 0; 0] = [4294967296] /\
   to_inexact_bitwise_digits_le [18446744073709551615; 1] 3 =
     Ret [7; 7; 7; 7; 7; 7; 7; 7; 7; 7; 7; 7; 7; 7; 7; 7; 7; 7; 7; 7; 7; 3] /\
